@@ -226,6 +226,19 @@ CHECKS = {
         "Conditions CrossHair cannot finish within the per-condition budget are listed as inconclusive.",
         design="3/C20",
     ),
+    "C19": dict(
+        engine="E2",
+        technique="symbolic execution of the real place_and_orient_model3d and of the local model builders (make_Cuboid / Prism / Ellipsoid / "
+        "CylinderSegment / Tetrahedron, make_Polyline / make_Circle) over z3 terms with symbolic dimensions, pose, scale and length factor; "
+        "on-surface and full-extent conditions as SMT obligations",
+        text="Bounded symbolic model checking of the geometric core of show(): for all real dimensions and poses every drawn vertex equals "
+        "(q*v*scale + p)*length_factor, lies on the surface of the body it depicts (corner of the box, hull circle and base planes, ellipsoid "
+        "equation, inner/outer radius at z=+-h/2, the given tetrahedron vertices) and the full extent is attained; current lines pass through "
+        "the conductor's points.",
+        note="PARTLY APPLICABLE: discretisation parameters and section angles concrete; the show() pipeline (frame selection, animation, "
+        "get_generic_traces3D, back ends), glyphs, colouring, axis unit and 'displaying never modifies objects/styles/defaults' are NOT decided.",
+        design="3/C19",
+    ),
 }
 
 NOT_APPLICABLE = {
